@@ -245,6 +245,9 @@ def stale(chk, F):
         for fn in F.functions.values():
             if fn.get("cls") != "UTAP::DocumentBuilder":
                 continue
+            if not fn.get("virt") and fn.get("access") != "public":
+                continue        # an internal helper is judged inside the callbacks that call it (normal form)
+            fn = F.normal(fn)
             derefs = [x for x in walk(fn["body"]) if x.get("k") == "member" and x.get("arrow") and
                       (x.get("base") or {}).get("k") == "member" and x["base"].get("name") == m]
             if not derefs:
